@@ -218,8 +218,8 @@ def generate(repo, outdir, seed, tier):
     rng = random.Random(seed * 7919 + 19)
     thorough = tier == "thorough"
     tests = _tests_ninja(repo)
-    n_gen = 150 if not thorough else 600
-    k = 3 if not thorough else 9
+    n_gen = 150 if not thorough else 400
+    k = 3 if not thorough else 6
 
     man_full = [b for _, b in tests] + [_resolve_includes(p, b) for p, b in tests if re.search(br"^(include|subninja)\b", b, re.M)]
     man_full += [gen_manifest(rng) for _ in range(n_gen)] + [gen_table(rng) for _ in range(n_gen)]
